@@ -469,6 +469,7 @@ func checkC19(c *Ctx) {
 
 	// ---------------- R19g
 	c19Required(c, decls, info)
+	c19ContainerRulesReached(c, decls, info)
 }
 
 func shortType(t types.Type) string {
@@ -721,4 +722,62 @@ func c19StringTags(c *Ctx, decls map[*types.Func]*ast.FuncDecl, info *types.Info
 		})
 	}
 
+}
+
+// c19ContainerRulesReached: R19h — in extractValidationConstraints the repeated/map rules (minItems, maxItems,
+// uniqueItems, min/maxProperties) are applied for every element kind: once the field's rules are in hand no arm of
+// the kind switch may leave the function ahead of applyRepeatedConstraints / applyMapConstraints (a repeated
+// field's Kind() is its element kind).
+func c19ContainerRulesReached(c *Ctx, decls map[*types.Func]*ast.FuncDecl, info *types.Info) {
+	r := c.R
+	r.Rule("R19h", "repeated and map rules are applied whatever the element kind (no exit between the kind switch and the container rules)", 1)
+	for fn, decl := range decls {
+		if fn.Name() != "extractValidationConstraints" {
+			continue
+		}
+		var sw *ast.SwitchStmt
+		var last token.Pos
+		n := 0
+		ast.Inspect(decl.Body, func(nd ast.Node) bool {
+			switch x := nd.(type) {
+			case *ast.SwitchStmt:
+				if x.Tag != nil && strings.HasSuffix(types.ExprString(x.Tag), ".Desc.Kind()") && sw == nil {
+					sw = x
+				}
+			case *ast.CallExpr:
+				if cal := Callee(info, x); cal != nil && (cal.Name() == "applyRepeatedConstraints" || cal.Name() == "applyMapConstraints") {
+					n++
+					if x.Pos() > last {
+						last = x.Pos()
+					}
+				}
+			}
+			return true
+		})
+		pos := c.P.Pos(decl.Pos())
+		if sw == nil || n < 2 {
+			r.Undec("R19h", "container rules in extractValidationConstraints", pos, fmt.Sprintf("kind switch found: %v, calls of applyRepeatedConstraints/applyMapConstraints: %d", sw != nil, n))
+			return
+		}
+		bad := ""
+		ast.Inspect(decl.Body, func(nd ast.Node) bool {
+			if _, ok := nd.(*ast.FuncLit); ok {
+				return false
+			}
+			if ret, ok := nd.(*ast.ReturnStmt); ok && ret.Pos() > sw.Pos() && ret.Pos() < last {
+				bad = c.P.Pos(ret.Pos())
+			}
+			return true
+		})
+		if last < sw.Pos() {
+			bad = "the container rules are applied before the kind switch only at " + c.P.Pos(last)
+		}
+		if bad != "" {
+			pos = bad
+		}
+		r.Check(bad == "", "R19h", "no exit between the element-kind switch and the repeated/map rules", pos,
+			"extractValidationConstraints can return (at "+bad+") after it has the field's rules and before applyRepeatedConstraints / applyMapConstraints: for the element kinds of that arm a repeated or map field publishes none of minItems, maxItems, uniqueItems, minProperties, maxProperties, so the schema accepts lists the rules reject")
+		return
+	}
+	r.Unres("R19h", "extractValidationConstraints", "", "not found")
 }
